@@ -10,4 +10,4 @@ Definition listed (t : table) : list N := map s_id (filter s_auth (t_sess t)).
 
 (* the sessions for which ConnectionAuthenticated was received in a history *)
 Definition committed (ops : list top) : list N :=
-  flat_map (fun o => match o with TCommit id => [id] | _ => [] end) ops.
+  flat_map (fun o => match o with TCommit id => [id] | TCommitH id => [id] | _ => [] end) ops.
